@@ -247,6 +247,22 @@ func propC10(c *Ctx) {
 	for _, call := range callsToFn(scan, scan) {
 		nr++
 		arg := call.Call.Args[3]
+		// a local copy of the type (`elem := *t.elem`, hoisted out of the loop)
+		for i := 0; i < 4; i++ {
+			u, isU := stripConv(arg).(*ssa.UnOp)
+			if !isU || u.Op != token.MUL {
+				break
+			}
+			al, isAl := u.X.(*ssa.Alloc)
+			if !isAl {
+				break
+			}
+			cv := cellValue(al)
+			if cv == nil {
+				break
+			}
+			arg = cv
+		}
 		ok := false
 		// *t.elem
 		if u, isU := arg.(*ssa.UnOp); isU && u.Op == token.MUL {
